@@ -555,14 +555,22 @@ impl Expression {
         let mask = if rhs.bits() <= 64 {
             Expression::shl(
                 expr_const(0xffff_ffff_ffff_ffff, rhs.bits()),
-                Expression::sub(expr_const(rhs.bits() as u64, rhs.bits()), rhs)?,
+                Expression::sub(expr_const(rhs.bits() as u64, rhs.bits()), rhs.clone())?,
             )?
         } else {
             Expression::shl(
                 const_(0, rhs.bits()).sub(&const_(1, rhs.bits()))?.into(),
-                Expression::sub(expr_const(rhs.bits() as u64, rhs.bits()), rhs)?,
+                Expression::sub(expr_const(rhs.bits() as u64, rhs.bits()), rhs.clone())?,
             )?
         };
+
+        // A shift by more than the width fills every bit with the sign bit;
+        // the subtraction above wraps around for such amounts.
+        let mask = Expression::ite(
+            Expression::cmpltu(expr_const(rhs.bits() as u64, rhs.bits()), rhs)?,
+            const_(0, lhs.bits()).sub(&const_(1, lhs.bits()))?.into(),
+            mask,
+        )?;
 
         Expression::or(
             expr,
